@@ -5,6 +5,8 @@ DAYS and DATEDIF (d, m, y, ym), WEEKDAY types 1-3, EDATE with clamping and range
 """
 import calendar
 import datetime
+import random
+import re
 
 from .common import FormulaCheck
 from ..oracle import BASE_ORD
@@ -14,6 +16,10 @@ ORD0 = datetime.date(1900, 1, 1).toordinal()
 ORDN = datetime.date(9999, 12, 31).toordinal()
 M1 = datetime.date(1900, 3, 1)
 J1 = datetime.date(1900, 1, 1)
+
+
+RND_FLOAT = random.Random(14)
+DATE_OR_TIME_CALL = re.compile(r'\b(DATE|TIME)\((-?\d+,-?\d+,-?\d+)\)')
 
 
 def dcall(d):
@@ -56,6 +62,12 @@ class Check(FormulaCheck):
 
     def chk(self, key, f, exp):
         g = self.ev(f)
+        m_ = DATE_OR_TIME_CALL.search(f)
+        if m_ and RND_FLOAT.random() < 0.15:
+            # year, month, day, hour, minute and second are whole numbers whether they are held as ints or as floats (2040/2 is 1020)
+            f_float = f[:m_.start()] + '%s(%s)' % (m_.group(1), ','.join('(%s*2/2)' % a for a in m_.group(2).split(','))) + f[m_.end():]
+            g_float = self.ev(f_float)
+            self.expect('C14/' + key + ':parts-held-as-float', g_float == g and type(g_float) is type(g), formula=f_float, got=g_float, with_int_parts=g)
         if exp == 'ERR:#NUM!':
             ok = g == exp
         elif isinstance(exp, int) and not isinstance(exp, bool):
